@@ -45,9 +45,9 @@ CLAIMED = {
   'design_ref': 'DESIGN.md 3/C10', 'technique': _T + '; float arithmetic as uninterpreted functions',
   'note': _N + 'Bounds: 1 value, <=3 components. Option plumbing of Decoder::SetSkipAttributeTransform outside the claim.'},
  'C12': {
-  'text': '2-safety proof on the real AttributeQuantizationTransform + PointAttribute objects: the decoded value of a point is independent of the other point, for every q and all float inputs; explicit parameters are stored verbatim.',
+  'text': '2-safety proof on the real AttributeQuantizationTransform + PointAttribute objects: the decoded value of a point is independent of the other point, for every q and all float inputs; explicit parameters are stored verbatim; the real SequentialQuantizationAttributeEncoder::Init takes them from the options of THIS attribute id whatever the other keys hold.',
   'design_ref': 'DESIGN.md 3/C12', 'technique': _T + '; self-composition, float arithmetic as uninterpreted functions',
-  'note': _N + 'Bounds: 2 points x 2 components. That the encoders call SetParameters when the option is set is outside the claim.'},
+  'note': _N + 'Bounds: 2 points x 2 components; 2 attributes, option keys 0..3. The option store (std::map per key) is replaced by a table model (explicit specialisation of 4 accessors). The kd-tree encoder\'s option reads and the Encoder/ExpertEncoder front ends are outside the claim.'},
  'C13': {
   'text': 'Inductive decomposition of CornerTable::Init on the real member functions: ComputeOppositeCorners on EVERY triangle list, BreakNonManifoldEdges and ComputeVertexCorners each from ANY state satisfying the previous phase\'s post-condition; asserted: symmetric pairing across a shared oppositely oriented edge of two non-degenerate non-mirrored faces, degenerate faces unlinked, manifold edges connected, every corner maps through the parent relation to its input vertex id, all corners of a vertex lie on the one fan reached from its representative corner; plus the whole Init on two triangles.',
   'design_ref': 'DESIGN.md 3/C13', 'technique': _T + '; inductive (one-phase-from-arbitrary-consistent-state) decomposition',
